@@ -40,6 +40,14 @@ def build_query(c, goal, hyps=(), hints=(), path_len=None, negate=True, full=Fal
     """
     path = c.path if path_len is None else c.path[:path_len]
     rel = set(E.fv(goal))
+    if not rel:
+        # variable-free goal (an exception / frame obligation is `false`): the question is whether the path is feasible
+        # under the preconditions, so the cone is that of the path conditions and the preconditions
+        for p in path:
+            rel |= E.fv(p)
+        for h in hyps:
+            rel |= E.fv(h)
+        full = True
     chosen = []
     # hints may introduce ghost variables; they join the cone first
     pool_h = []
